@@ -13,7 +13,10 @@ ITEM_KW = {'fn', 'impl', 'struct', 'enum', 'union', 'trait', 'mod', 'use', 'type
 
 
 class AnchorLost(Exception):
-    """A contract names something that no longer exists in the source."""
+    """A contract names something that no longer exists in the source.  `inner` = (file, fn path) when only an anchor
+    INSIDE an existing function was lost (loop / closure ordinal, W8 / W9 shape): the function can then be left outside
+    the verifier with its contract assumed instead of giving up on the whole crate."""
+    inner = None
 
 
 class Item:
@@ -347,6 +350,140 @@ class Weave:
         return stripped == ''.join(opieces)
 
 
+def _apply_fn(src, w, op, fn, modname):
+    toks = src.toks
+    text = src.text
+    label = f"{modname}::{op['path']}"
+    arrow, r0, r1, where, body = src.fn_sig(fn)
+    if op.get('attrs'):
+        w.insert(toks[fn.qual].start, ' '.join(op['attrs']) + '\n    ', label + '#attr', 'W3')
+    if op.get('ret'):
+        if arrow < 0:
+            raise AnchorLost(f'{src.path}: fn `{op["path"]}` has no return type to name')
+        w.insert(toks[r0].start, f"({op['ret']}: ", label + '#ret', 'W3')
+        w.insert(toks[r1].end, ')', label + '#ret', 'W3')
+    if op.get('spec'):
+        w.insert(toks[body].start, '\n' + op['spec'].rstrip() + '\n', label + '#spec', 'W3')
+    for (kidx, spec) in sorted(op.get('loops', {}).items()):
+        lps = src.loops(fn)
+        if kidx >= len(lps):
+            raise AnchorLost(f'{src.path}: fn `{op["path"]}` has no loop #{kidx}')
+        kwi, bi = lps[kidx]
+        if isinstance(spec, dict):
+            # name the ghost iterator of a `for` loop: `for x in NAME: expr`
+            j = kwi + 1
+            while j < bi and not (toks[j].kind == 'ident' and toks[j].text == 'in'):
+                if toks[j].kind == 'punct' and toks[j].text in '([{':
+                    j = toks[j].match
+                j += 1
+            if toks[kwi].text != 'for' or j >= bi:
+                raise AnchorLost(f'{src.path}: loop #{kidx} of `{op["path"]}` is not a for loop')
+            w.insert(toks[j].end, f" {spec['iter_name']}:", f'{label}#loop{kidx}', 'W4')
+            spec = spec['spec']
+        w.insert(toks[bi].start, '\n' + spec.rstrip() + '\n', f'{label}#loop{kidx}', 'W4')
+    for (kidx, c) in sorted(op.get('closures', {}).items()):
+        cls = src.closures(fn)
+        if kidx >= len(cls):
+            raise AnchorLost(f'{src.path}: fn `{op["path"]}` has no closure #{kidx}')
+        bo, bc, b0, b1 = cls[kidx]
+        have = norm(text[toks[bo].start:toks[bc].end])
+        if norm(c['expect_params']) != have:
+            raise AnchorLost(f'{src.path}: closure #{kidx} of `{op["path"]}` has params `{have}`')
+        # W5: param types are inserted after each listed ident; return+spec before the body
+        for pname, pty in c.get('types', {}).items():
+            hit = [t for t in toks[bo:bc + 1] if t.kind == 'ident' and t.text == pname]
+            if len(hit) != 1:
+                raise AnchorLost(f'{src.path}: closure param {pname}')
+            w.insert(hit[0].end, f': {pty}', f'{label}#closure{kidx}', 'W5')
+        w.insert(toks[b0].start, f" -> ({c['ret']})\n{c['spec'].rstrip()}\n{{ ", f'{label}#closure{kidx}', 'W5')
+        w.insert(toks[b1].end, ' }', f'{label}#closure{kidx}', 'W5')
+    for pr in op.get('proofs', []):
+        b_lo, b_hi = toks[body].end, toks[toks[body].match].start
+        if pr.get('at_start'):
+            w.insert(b_lo, ' ' + pr['text'].strip() + ' ', f'{label}#proof', 'W6')
+            continue
+        if 'loop' in pr:
+            # structural anchors relative to the k-th loop: body_start | body_end | after
+            lps = src.loops(fn)
+            if pr['loop'] >= len(lps):
+                if pr.get('optional'):
+                    w.lost_hints = getattr(w, 'lost_hints', []) + [f'{label}: loop #{pr["loop"]}']
+                    continue
+                raise AnchorLost(f'{src.path}: fn `{op["path"]}` has no loop #{pr["loop"]}')
+            _kw, bi = lps[pr['loop']]
+            where = pr.get('where', 'body_start')
+            off = {'body_start': toks[bi].end, 'body_end': toks[toks[bi].match].start,
+                   'after': toks[toks[bi].match].end, 'before': toks[_kw].start}[where]
+            w.insert(off, ' ' + pr['text'].strip() + ' ', f'{label}#proof', 'W6')
+            continue
+        needle = pr['before'] if 'before' in pr else pr['after']
+        region = text[b_lo:b_hi]
+        occ = [m.start() for m in re.finditer(re.escape(needle), region)]
+        nth = pr.get('nth', 0)
+        if nth >= len(occ):
+            if pr.get('optional'):
+                w.lost_hints = getattr(w, 'lost_hints', []) + [f'{label}: `{needle}`']
+                continue
+            raise AnchorLost(f'{src.path}: needle `{needle}` #{nth} not in `{op["path"]}`')
+        off = b_lo + occ[nth] + (0 if 'before' in pr else len(needle))
+        w.insert(off, ' ' + pr['text'].strip() + ' ', f'{label}#proof', 'W6')
+    if op.get('w9_mut_self'):
+        # W9: `mut self` receiver (unsupported by Verus) => `self` + `let mut self_w9 = self;` and every
+        # `self` token of the body renamed.  Token-level, semantics-preserving.
+        i = fn.kw
+        ms = None
+        while i < body:
+            if toks[i].text == 'mut' and toks[i + 1].text == 'self' and toks[i - 1].text == '(':
+                ms = i
+                break
+            i += 1
+        if ms is None:
+            raise AnchorLost(f'{src.path}: fn `{op["path"]}` has no `mut self` receiver')
+        w.rewrite(toks[ms].start, toks[ms + 1].end, 'self', f'{label}#w9')
+        w.insert(toks[body].end, ' let mut self_w9 = self; ', f'{label}#w9', 'W9')
+        for t in toks[body + 1:toks[body].match]:
+            if t.kind == 'ident' and t.text == 'self':
+                w.rewrite(t.start, t.end, 'self_w9', f'{label}#w9')
+    for r8 in op.get('w8', []):
+        lps = src.loops(fn)
+        if r8['loop'] >= len(lps):
+            raise AnchorLost(f'{src.path}: fn `{op["path"]}` has no loop #{r8["loop"]}')
+        kwi, bi = lps[r8['loop']]
+        header = norm(text[toks[kwi].start:toks[bi].end])
+        inv = r8.get('spec', '').rstrip()
+        if r8['kind'] == 'enumerate':
+            m = re.match(r'^for \((\w+), (\w+)\) in (\w+)\.iter\(\)\.enumerate\(\) \{$', header)
+            if not m:
+                raise AnchorLost(f'{src.path}: W8 loop header `{header}` is not an enumerate loop')
+            i_, x_, e_ = m.groups()
+            head = f'let mut {i_}: usize = 0; while {i_} < {e_}.len()\n{inv}\n{{ let {x_} = &{e_}[{i_}];'
+            tail = f' {i_} += 1; '
+        elif r8['kind'] == 'step_by':
+            m = re.match(r'^for (\w+) in \((.+)\.\.(.+)\)\.step_by\((\w+)\) \{$', header)
+            if not m:
+                raise AnchorLost(f'{src.path}: W8 loop header `{header}` is not a step_by loop')
+            i_, a_, b_, k_ = m.groups()
+            head = f'let mut {i_}: usize = {a_}; while {i_} < {b_}\n{inv}\n{{'
+            tail = f' if {b_} - {i_} <= {k_} {{ break; }} {i_} += {k_}; '
+        elif r8['kind'] == 'values':
+            # HashMap::values() (whose vstd specification only gives the length) => iter() with the key ignored
+            m = re.match(r'^for (\w+) in (.+)\.values\(\) \{$', header)
+            if not m:
+                raise AnchorLost(f'{src.path}: W8 loop header `{header}` is not a values() loop')
+            x_, e_ = m.groups()
+            nm = (r8['iter_name'] + ': ') if r8.get('iter_name') else ''
+            head = f'for (_w8k, {x_}) in {nm}{e_}.iter()\n{inv}\n{{'
+            tail = ''
+        else:
+            raise ValueError(r8['kind'])
+        body_txt = text[toks[bi].end:toks[toks[bi].match].start]
+        if re.search(r'\b(continue|break)\b', body_txt):
+            raise AnchorLost(f'{src.path}: W8 loop body contains continue/break')
+        w.rewrite(toks[kwi].start, toks[bi].end, head, f'{label}#w8')
+        if tail:
+            w.insert(toks[toks[bi].match].start, tail, f'{label}#w8tail', 'W8')
+
+
 # -------------------------------------------------------------------------------- applying a sidecar
 
 def apply_contracts(src, ops, modname):
@@ -386,135 +523,11 @@ def apply_contracts(src, ops, modname):
             w.insert(toks[it.qual].start, op['text'].strip() + '\n', f'{modname}#attr[{it.sel}]', 'W3')
         elif k == 'fn':
             fn = src.find_fn(op['path'])
-            label = f"{modname}::{op['path']}"
-            arrow, r0, r1, where, body = src.fn_sig(fn)
-            if op.get('attrs'):
-                w.insert(toks[fn.qual].start, ' '.join(op['attrs']) + '\n    ', label + '#attr', 'W3')
-            if op.get('ret'):
-                if arrow < 0:
-                    raise AnchorLost(f'{src.path}: fn `{op["path"]}` has no return type to name')
-                w.insert(toks[r0].start, f"({op['ret']}: ", label + '#ret', 'W3')
-                w.insert(toks[r1].end, ')', label + '#ret', 'W3')
-            if op.get('spec'):
-                w.insert(toks[body].start, '\n' + op['spec'].rstrip() + '\n', label + '#spec', 'W3')
-            for (kidx, spec) in sorted(op.get('loops', {}).items()):
-                lps = src.loops(fn)
-                if kidx >= len(lps):
-                    raise AnchorLost(f'{src.path}: fn `{op["path"]}` has no loop #{kidx}')
-                kwi, bi = lps[kidx]
-                if isinstance(spec, dict):
-                    # name the ghost iterator of a `for` loop: `for x in NAME: expr`
-                    j = kwi + 1
-                    while j < bi and not (toks[j].kind == 'ident' and toks[j].text == 'in'):
-                        if toks[j].kind == 'punct' and toks[j].text in '([{':
-                            j = toks[j].match
-                        j += 1
-                    if toks[kwi].text != 'for' or j >= bi:
-                        raise AnchorLost(f'{src.path}: loop #{kidx} of `{op["path"]}` is not a for loop')
-                    w.insert(toks[j].end, f" {spec['iter_name']}:", f'{label}#loop{kidx}', 'W4')
-                    spec = spec['spec']
-                w.insert(toks[bi].start, '\n' + spec.rstrip() + '\n', f'{label}#loop{kidx}', 'W4')
-            for (kidx, c) in sorted(op.get('closures', {}).items()):
-                cls = src.closures(fn)
-                if kidx >= len(cls):
-                    raise AnchorLost(f'{src.path}: fn `{op["path"]}` has no closure #{kidx}')
-                bo, bc, b0, b1 = cls[kidx]
-                have = norm(text[toks[bo].start:toks[bc].end])
-                if norm(c['expect_params']) != have:
-                    raise AnchorLost(f'{src.path}: closure #{kidx} of `{op["path"]}` has params `{have}`')
-                # W5: param types are inserted after each listed ident; return+spec before the body
-                for pname, pty in c.get('types', {}).items():
-                    hit = [t for t in toks[bo:bc + 1] if t.kind == 'ident' and t.text == pname]
-                    if len(hit) != 1:
-                        raise AnchorLost(f'{src.path}: closure param {pname}')
-                    w.insert(hit[0].end, f': {pty}', f'{label}#closure{kidx}', 'W5')
-                w.insert(toks[b0].start, f" -> ({c['ret']})\n{c['spec'].rstrip()}\n{{ ", f'{label}#closure{kidx}', 'W5')
-                w.insert(toks[b1].end, ' }', f'{label}#closure{kidx}', 'W5')
-            for pr in op.get('proofs', []):
-                b_lo, b_hi = toks[body].end, toks[toks[body].match].start
-                if pr.get('at_start'):
-                    w.insert(b_lo, ' ' + pr['text'].strip() + ' ', f'{label}#proof', 'W6')
-                    continue
-                if 'loop' in pr:
-                    # structural anchors relative to the k-th loop: body_start | body_end | after
-                    lps = src.loops(fn)
-                    if pr['loop'] >= len(lps):
-                        if pr.get('optional'):
-                            w.lost_hints = getattr(w, 'lost_hints', []) + [f'{label}: loop #{pr["loop"]}']
-                            continue
-                        raise AnchorLost(f'{src.path}: fn `{op["path"]}` has no loop #{pr["loop"]}')
-                    _kw, bi = lps[pr['loop']]
-                    where = pr.get('where', 'body_start')
-                    off = {'body_start': toks[bi].end, 'body_end': toks[toks[bi].match].start,
-                           'after': toks[toks[bi].match].end, 'before': toks[_kw].start}[where]
-                    w.insert(off, ' ' + pr['text'].strip() + ' ', f'{label}#proof', 'W6')
-                    continue
-                needle = pr['before'] if 'before' in pr else pr['after']
-                region = text[b_lo:b_hi]
-                occ = [m.start() for m in re.finditer(re.escape(needle), region)]
-                nth = pr.get('nth', 0)
-                if nth >= len(occ):
-                    if pr.get('optional'):
-                        w.lost_hints = getattr(w, 'lost_hints', []) + [f'{label}: `{needle}`']
-                        continue
-                    raise AnchorLost(f'{src.path}: needle `{needle}` #{nth} not in `{op["path"]}`')
-                off = b_lo + occ[nth] + (0 if 'before' in pr else len(needle))
-                w.insert(off, ' ' + pr['text'].strip() + ' ', f'{label}#proof', 'W6')
-            if op.get('w9_mut_self'):
-                # W9: `mut self` receiver (unsupported by Verus) => `self` + `let mut self_w9 = self;` and every
-                # `self` token of the body renamed.  Token-level, semantics-preserving.
-                i = fn.kw
-                ms = None
-                while i < body:
-                    if toks[i].text == 'mut' and toks[i + 1].text == 'self' and toks[i - 1].text == '(':
-                        ms = i
-                        break
-                    i += 1
-                if ms is None:
-                    raise AnchorLost(f'{src.path}: fn `{op["path"]}` has no `mut self` receiver')
-                w.rewrite(toks[ms].start, toks[ms + 1].end, 'self', f'{label}#w9')
-                w.insert(toks[body].end, ' let mut self_w9 = self; ', f'{label}#w9', 'W9')
-                for t in toks[body + 1:toks[body].match]:
-                    if t.kind == 'ident' and t.text == 'self':
-                        w.rewrite(t.start, t.end, 'self_w9', f'{label}#w9')
-            for r8 in op.get('w8', []):
-                lps = src.loops(fn)
-                if r8['loop'] >= len(lps):
-                    raise AnchorLost(f'{src.path}: fn `{op["path"]}` has no loop #{r8["loop"]}')
-                kwi, bi = lps[r8['loop']]
-                header = norm(text[toks[kwi].start:toks[bi].end])
-                inv = r8.get('spec', '').rstrip()
-                if r8['kind'] == 'enumerate':
-                    m = re.match(r'^for \((\w+), (\w+)\) in (\w+)\.iter\(\)\.enumerate\(\) \{$', header)
-                    if not m:
-                        raise AnchorLost(f'{src.path}: W8 loop header `{header}` is not an enumerate loop')
-                    i_, x_, e_ = m.groups()
-                    head = f'let mut {i_}: usize = 0; while {i_} < {e_}.len()\n{inv}\n{{ let {x_} = &{e_}[{i_}];'
-                    tail = f' {i_} += 1; '
-                elif r8['kind'] == 'step_by':
-                    m = re.match(r'^for (\w+) in \((.+)\.\.(.+)\)\.step_by\((\w+)\) \{$', header)
-                    if not m:
-                        raise AnchorLost(f'{src.path}: W8 loop header `{header}` is not a step_by loop')
-                    i_, a_, b_, k_ = m.groups()
-                    head = f'let mut {i_}: usize = {a_}; while {i_} < {b_}\n{inv}\n{{'
-                    tail = f' if {b_} - {i_} <= {k_} {{ break; }} {i_} += {k_}; '
-                elif r8['kind'] == 'values':
-                    # HashMap::values() (whose vstd specification only gives the length) => iter() with the key ignored
-                    m = re.match(r'^for (\w+) in (.+)\.values\(\) \{$', header)
-                    if not m:
-                        raise AnchorLost(f'{src.path}: W8 loop header `{header}` is not a values() loop')
-                    x_, e_ = m.groups()
-                    nm = (r8['iter_name'] + ': ') if r8.get('iter_name') else ''
-                    head = f'for (_w8k, {x_}) in {nm}{e_}.iter()\n{inv}\n{{'
-                    tail = ''
-                else:
-                    raise ValueError(r8['kind'])
-                body_txt = text[toks[bi].end:toks[toks[bi].match].start]
-                if re.search(r'\b(continue|break)\b', body_txt):
-                    raise AnchorLost(f'{src.path}: W8 loop body contains continue/break')
-                w.rewrite(toks[kwi].start, toks[bi].end, head, f'{label}#w8')
-                if tail:
-                    w.insert(toks[toks[bi].match].start, tail, f'{label}#w8tail', 'W8')
+            try:
+                _apply_fn(src, w, op, fn, modname)
+            except AnchorLost as e:
+                e.inner = (src.path, op['path'])
+                raise
         elif k == 'append':
             w.insert(len(text), '\n' + op['text'] + '\n', f'{modname}#append', 'W1')
         else:
